@@ -102,7 +102,12 @@ pub(super) async fn receive_batch_body_no_multipart(
     content_type: &mime::Mime,
     body: impl AsyncRead + Send,
 ) -> Result<BatchRequest, ParseRequestError> {
-    assert_ne!(content_type.type_(), mime::MULTIPART, "received multipart");
+    // The content type of a part is client-controlled, so this must not be an assertion.
+    if content_type.type_() == mime::MULTIPART {
+        return Err(ParseRequestError::InvalidRequest(
+            "a nested multipart body is not a GraphQL request".into(),
+        ));
+    }
     receive_batch_json(body).await
 }
 
